@@ -4,7 +4,13 @@
    Scans (V lines of harness/olc_sched) are turned into chains of successor queries (C09): the first asks for the
    least key >= the bound, each later one for the least key > the key just delivered, the last one (unless the
    visitor halted the scan) finds nothing; every query must take effect between the previous delivery and its own.
-   Two verdicts per history: point operations only, and (line starting SCAN) point operations + scan queries. *)
+   Verdicts per history: point operations only ("ok" / "NONLIN"); for histories with scans a line starting SCAN: every
+   scan step must be an INTERVAL successor query (Olc/IterModel.wquery, the guarantee proved for the iterator in
+   C09c_next_step / C09c_seek): for some linearization of the point operations, the delivered entry is in the map at some
+   moment between the previous delivery and this one, and every key between the bound and the delivered key is absent
+   at some moment of that interval; the final step of an unhalted scan likewise finds nothing left.  (A step is NOT an
+   atomic successor query - machine-checked counterexample C09c_step_not_atomic; the stricter atomic-chain reading is
+   reported on lines starting ATOMIC for information only.) *)
 open Model
 open Zutil
 
@@ -73,16 +79,91 @@ let search (init : (int * int) list) (h : c array) : int list option =
     end in
   go 0 (List.sort compare init) []
 
+(* ---- scans as interval queries ------------------------------------------------------------------------------ *)
+type sscan = { fwd : bool; near0 : int; sfar : int option; halted : bool; sinv : int; sret : int; ds : (int * int * int) list }
+
+(* all orders of the point operations that respect real time and are sequentially legal (no memo: the scan check depends on the order) *)
+let all_orders (init : (int * int) list) (h : c array) (accept : int list -> bool) : bool =
+  let n = Array.length h in
+  let found = ref false in
+  let budget = ref 200000 in
+  let rec go donemask state acc =
+    if !found || !budget <= 0 then ()
+    else if donemask = (1 lsl n) - 1 then (decr budget; if accept (List.rev acc) then found := true)
+    else begin
+      let minret = ref max_int in
+      for i = 0 to n - 1 do if donemask land (1 lsl i) = 0 then minret := min !minret h.(i).ret done;
+      for j = 0 to n - 1 do
+        if not !found && donemask land (1 lsl j) = 0 && h.(j).inv <= !minret then begin
+          let x = h.(j) in
+          let cur = List.assoc_opt x.key state in
+          let step = match x.op with
+            | 'G' -> if (x.ok && cur = Some x.got) || (not x.ok && cur = None) then Some state else None
+            | 'I' -> if x.ok && cur = None then Some ((x.key, x.vl) :: state)
+                     else if (not x.ok) && cur <> None then Some state else None
+            | _ -> if x.ok && cur <> None then Some (List.remove_assoc x.key state)
+                   else if (not x.ok) && cur = None then Some state else None in
+          (match step with Some st -> decr budget; go (donemask lor (1 lsl j)) st (j :: acc) | None -> ())
+        end
+      done
+    end in
+  go 0 init [];
+  !found
+
+(* states S_0 .. S_n along an order *)
+let states_along init (h : c array) order =
+  let st = ref init in
+  let out = ref [init] in
+  List.iter (fun j ->
+    let x = h.(j) in
+    (match x.op with
+     | 'I' -> if x.ok then st := (x.key, x.vl) :: !st
+     | 'R' -> if x.ok then st := List.remove_assoc x.key !st
+     | _ -> ());
+    out := !st :: !out) order;
+  Array.of_list (List.rev !out)
+
+(* moments (number of operations already applied) compatible with the real-time interval [a, b] (doubled stamps) *)
+let moment_range (h : c array) order a b =
+  let lo = ref 0 and hi = ref (List.length order) in
+  List.iteri (fun pos j ->
+    if h.(j).ret < a then lo := max !lo (pos + 1);
+    if h.(j).inv > b then hi := min !hi pos) order;
+  (!lo, !hi)
+
+let scan_interval_ok init (h : c array) order (s : sscan) : bool =
+  let st = states_along init h order in
+  let inside k = match s.sfar with None -> true | Some f -> if s.fwd then k < f else k > f in
+  let beyond bound strict k = if s.fwd then (if strict then k > bound else k >= bound) else (if strict then k < bound else k <= bound) in
+  let before k k' = if s.fwd then k < k' else k > k' in   (* k comes before k' in the scan direction *)
+  let step a b bound strict (res : (int * int) option) =
+    let (lo, hi) = moment_range h order a b in
+    if lo > hi then false else begin
+      let present_all x = (let r = ref true in for m = lo to hi do if not (List.mem_assoc x st.(m)) then r := false done; !r) in
+      let cand = List.filter (fun (x, _) -> beyond bound strict x && inside x) st.(lo) in
+      match res with
+      | Some (k, v) ->
+        beyond bound strict k && inside k &&
+        (let r = ref false in for m = lo to hi do if List.assoc_opt k st.(m) = Some v then r := true done; !r) &&
+        List.for_all (fun (x, _) -> not (before x k && present_all x)) cand
+      | None -> List.for_all (fun (x, _) -> not (present_all x)) cand
+    end in
+  let rec go prev bound strict = function
+    | [] -> s.halted || step prev (2 * s.sret) bound strict None
+    | (k, v, t) :: rest -> step prev (2 * t) bound strict (Some (k, v)) && go (2 * t) k true rest in
+  go (2 * s.sinv) s.near0 false s.ds
+
 let () =
   let cur = ref [] in
   let scans = ref [] in
+  let sscans = ref [] in
   let init = ref [] in
   let total = ref 0 and bad = ref 0 in
   (try while true do
     let line = input_line stdin in
     match split_on ' ' line with
-    | ["H"] -> cur := []; init := []; scans := []
-    | "X" :: _ -> cur := []; init := []; scans := []
+    | ["H"] -> cur := []; init := []; scans := []; sscans := []
+    | "X" :: _ -> cur := []; init := []; scans := []; sscans := []
     | "V" :: _ :: inv :: ret :: kind :: a :: b :: dir :: halted :: ":" :: seen ->
       (* a scan as a chain of successor queries *)
       let inv = int_of_string inv and ret = int_of_string ret and a = int_of_string a and b = int_of_string b in
@@ -101,6 +182,7 @@ let () =
           { op = opc; key = near; vl = 0; ok = true; got = 0; inv = prev_t; ret = 2 * t; strict; far; res = Some (k, v) }
           :: chain (2 * t + 1) k true rest in
       ignore impossible;
+      sscans := { fwd; near0 = near; sfar = far; halted = (halted = "h"); sinv = inv; sret = ret; ds } :: !sscans;
       scans := !scans @ chain (2 * inv) near false ds
     | ["J"; k; v] -> init := (int_of_string k, int_of_string v) :: !init
     | ["C"; _; op; key; vl; ok; got; inv; ret] ->
@@ -118,7 +200,26 @@ let () =
             if lin_ok init_m hc (List.map nat_of_int order) then print_endline (prefix ^ "ok")
             else begin incr bad; print_endline (prefix ^ "NONLIN witness rejected by the verified validator") end) in
       judge "" (Array.of_list (List.rev !cur));
-      if !scans <> [] then judge "SCAN " (Array.of_list (List.rev !cur @ !scans))
+      if !sscans <> [] then begin
+        let h = Array.of_list (List.rev !cur) in
+        if Array.length h > 12 then print_endline "SCAN TOOLONG"
+        else begin
+          let ok = all_orders !init h (fun order ->
+            let hc = Array.to_list (Array.map to_call h) in
+            let init_m = List.map (fun (k, v) -> ([z_of_int k], zbytes v)) !init in
+            lin_ok init_m hc (List.map nat_of_int order) &&
+            List.for_all (scan_interval_ok !init h order) !sscans) in
+          if ok then print_endline "SCAN ok"
+          else begin incr bad; print_endline "SCAN NONLIN no linearization of the point operations makes every scan step an interval successor query" end
+        end;
+        (* informational: the stricter reading (each step an atomic successor query inside the linearization) *)
+        let saved = !bad in
+        (let h2 = Array.of_list (List.rev !cur @ !scans) in
+         if Array.length h2 <= 60 then
+           (match search !init h2 with None -> print_endline "ATOMIC no" | Some _ -> print_endline "ATOMIC yes")
+         else print_endline "ATOMIC toolong");
+        bad := saved
+      end
     | _ -> ()
   done with End_of_file -> ());
   Printf.printf "T histories=%d nonlinearizable=%d\n" !total !bad
